@@ -170,9 +170,9 @@ def setup(concepts, spec):
     probes.install(['lindig'])
     cap = CAP[spec['tier']]
     attach.attach_ctor(concepts)
-    attach.attach(concepts.contexts.LatticeMixin, 'neighbors', NeighborsMonitor(cap))
-    for owner, name, mon in [(concepts.lattices.Data, '__init__', InitHook(cap)),
-                             (concepts.lattices.Data, '_fromlist', FromlistHook(cap))]:
+    attach.attach(concepts.Context, 'neighbors', NeighborsMonitor(cap))
+    for owner, name, mon in [(concepts.lattices.Lattice, '__init__', InitHook(cap)),
+                             (concepts.lattices.Lattice, '_fromlist', FromlistHook(cap))]:
         try:
             attach.attach(owner, name, mon)
         except (KeyError, core.HarnessError):
